@@ -146,7 +146,16 @@ func (m *machine) Step(op Op) error {
 			vs[i] = h.resolve(s, nil)
 		}
 		var l at.List
-		if err := m.expectPanic("NewList", false, func() { l = at.NewList(goVals(vs)...) }); err != nil {
+		args := goVals(vs)
+		if err := m.expectPanic("NewList", false, func() { l = at.NewList(args...) }); err != nil {
+			return err
+		}
+		// a program may build a second list from the very same values (the slice it spread into the call)
+		if err := m.expectPanic("a second NewList from the slice of values that was spread into the first call", false, func() {
+			if twin := at.NewList(args...); twin.Count() != len(vs) {
+				panic(fmt.Sprintf("the second list has %d elements", twin.Count()))
+			}
+		}); err != nil {
 			return err
 		}
 		h.newList(l, vs, true)
@@ -601,6 +610,10 @@ func (m *machine) Step(op Op) error {
 		switch {
 		case !bad:
 			if err := sameObject("Set", r, n.impl); err != nil {
+				return err
+			}
+			// setting the same pairs once more from the same argument slice changes nothing
+			if err := m.expectPanic("a second Set with the argument slice that was spread into the first call", false, func() { n.impl.(at.Object).Set(args...) }); err != nil {
 				return err
 			}
 			apply(n.fields, np)
